@@ -206,6 +206,15 @@ def run(ctx):
         ja = [{"p": list(a), "R": []}, {"p": list(b), "R": []}]
         events.append({"op": "Ident", "a": ja, "b": ja, "same": again is first[i]})
     del more
+    # bases whose elements differ although their entries written one after the other read the same (10 | 1 0)
+    for n in (11, 12, 11):
+        a, b = util.digit_twins(rnd, n)
+        A1, A2, A3 = Av(Basis(Perm(a))), Av(Basis(Perm(b))), Av.from_iterable(iter([Perm(a)]))
+        ja, jb = [{"p": list(a), "R": []}], [{"p": list(b), "R": []}]
+        events.append({"op": "Ident", "a": ja, "b": jb, "same": A1 is A2})
+        events.append({"op": "Ident", "a": ja, "b": ja, "same": A1 is A3})
+        events.append({"op": "Build", "elems": [{"p": list(a), "R": []}, {"p": list(b), "R": []}],
+                       "res": [{"p": list(okey(o)[0]), "R": [list(c) for c in okey(o)[1]]} for o in Basis(Perm(b), Perm(a))]})
     Av.clear_cache()
     v = util.validate_trace(ctx, "Trace_C05", events, ntraces=len(events))
     ctx.case(n=len(events))
